@@ -60,9 +60,18 @@ def gen_wf_program(rng, ntasks, exact_only=False, allow_fail=False, coarse_write
     p.generated = gens
     for t in range(ntasks):
         p.tasks[t] = gen_body(rng, p, t, ntasks, exact_only, allow_fail, depth=0, used={}, wrote=set(), budget=[rng.randint(2, 6)])
+    for g in sorted(getattr(p, 'relays_used', ())):
+        # relay: requires the generator and passes its output on; half of them read a source first, so that the relay can be executing (out of
+        # date itself) when it requires a generator that is out of date too
+        body = ('Q', p.generated[g][0], 0, ('T', ('a',)))
+        p.tasks[relay_of(g)] = ('R', rng.choice(p.sources), 0, body) if rng.random() < 0.5 else body
     if allow_fail:
         p.uses_failing = True
     return p
+
+
+def relay_of(g):
+    return 80 + (g - 10)
 
 
 def pick_rc(rng, exact_only, allow_fail):
@@ -146,6 +155,14 @@ def gen_body(rng, p, t, ntasks, exact_only, allow_fail, depth, used, wrote, budg
             inner = ('R', g, rc, gen_body(rng, p, t, ntasks, exact_only, allow_fail, depth, u, wrote, budget))
             if ('t%d' % gt) in used:
                 return inner if rng.random() < 0.7 else ('Q', gt, used['t%d' % gt], inner)
+            if not norep and rng.random() < 0.25:
+                # the generator is reached TRANSITIVELY: the reader requires a relay task that requires the generator (the hidden-dependency
+                # rule is about transitive requires; outside the class of the C01 theorem, inside the property's)
+                rl = relay_of(g)
+                p.relays_used = getattr(p, 'relays_used', set()) | {g}
+                u['t%d' % rl] = 0
+                inner = ('R', g, rc, gen_body(rng, p, t, ntasks, exact_only, allow_fail, depth, u, wrote, budget))
+                return ('Q', rl, 0, inner)
             oc = pick_oc(rng, exact_only)
             u['t%d' % gt] = oc
             inner = ('R', g, rc, gen_body(rng, p, t, ntasks, exact_only, allow_fail, depth, u, wrote, budget))
@@ -174,7 +191,7 @@ def gen_history(rng, p, nsteps, mode='td', probes=True):
     'mixed' both interleaved (home of the recorded finding O4).  Returns list of steps (token lists) + metadata."""
     steps = []
     meta = {'probe': {}, 'bu': set(), 'repeat': set()}
-    ntasks = len(p.tasks)
+    ntasks = len([t for t in p.tasks if t < 80])       # relay tasks (ids >= 80) are never required at top level, except by the probes
     res_all = p.sources + list(p.generated.keys())
     pending = set()          # edited since the last bottom-up build
     known = set()            # tasks required at top level or possibly reached (over-approximation not needed)
@@ -226,7 +243,7 @@ def gen_history(rng, p, nsteps, mode='td', probes=True):
                 steps.append(['F', '0'])     # checkers stop failing before the probe: everything must be up to date
             if probes:
                 # probe: require every task; must execute nothing for tasks that were known, and equal a fresh build
-                steps.append(['S', str(ntasks)] + sum((['q', str(t)] for t in range(ntasks)), []))
+                steps.append(['S', str(len(p.tasks))] + sum((['q', str(t)] for t in sorted(p.tasks)), []))
                 meta['probe'][len(steps) - 1] = bu_idx
         first = False
     return steps, meta
@@ -468,7 +485,7 @@ def inject_self_rw(rng, p):
 
 def inject_back_require(rng, p):
     """a higher task requires a lower one: a cycle when the lower one (transitively) requires it in the current state"""
-    n = len(p.tasks)
+    n = len([t for t in p.tasks if t < 80])
     for _ in range(rng.randint(1, 2)):
         j = rng.randint(1, n - 1)
         i = rng.randint(0, j)          # i == j: self cycle
